@@ -191,8 +191,9 @@ parse_node_t* binary_int_op (parse_node_t * l, parse_node_t * r, char op, char *
             case F_MOD:
               if (r->v.number == 0)
                 {
-                  yyerror ("Modulo by zero constant");
-                  break;
+                  /* not an error of the program unless it is executed */
+                  yywarn ("Modulo by zero constant");
+                  goto not_constant;
                 }
               if (r->v.number == -1)
                 l->v.number = 0;	/* INT64_MIN % -1 traps */
@@ -213,6 +214,7 @@ parse_node_t* binary_int_op (parse_node_t * l, parse_node_t * r, char op, char *
           return ret;
         }
     }
+not_constant:
   CREATE_BINARY_OP (ret, op, TYPE_NUMBER, l, r);
   return ret;
 }
